@@ -115,8 +115,8 @@ func TestWakeup(t *testing.T) {
 		}
 		runtime.Gosched()
 		start := time.Now()
-		hc.Cacheable(mkResp(1), sp.ttl)           // wakes the waiters (runnable, not running)
-		hc.VerifAgeBy(int64(sp.delay / 1000))     // `delay` seconds pass
+		hc.Cacheable(mkResp(1), sp.ttl)       // wakes the waiters (runnable, not running)
+		hc.VerifAgeBy(int64(sp.delay / 1000)) // `delay` seconds pass
 		st2, r2 := cache.Status(-1), (*cache.HTTPResponse)(nil)
 		main2 := "TOther"
 		if sp.second {
